@@ -109,7 +109,8 @@ func TestVerifC13(t *testing.T) {
 			}
 			return roots
 		},
-		ExhaustMax: map[string]int{"quick": 4000, "thorough": 200000},
+		ExhaustLabels: func(string, int) []string { return []string{"mode", "scn"} },
+		ExhaustMax:    map[string]int{"quick": 4000, "thorough": 200000},
 		Runs:       map[string]int{"quick": 20000, "thorough": 2000000},
 		LeakSig:    "",
 		Real:       []string{"regprocessor.RegisterBidirectional / processBdReq / processC2SWrapper / sendToZMQ / ReloadSubnets", "phantoms.GetPhantomSubnetSelector + PhantomIPSelector.Select (real files)", "min transport"},
